@@ -22,7 +22,7 @@ impl Driver for HubAuth {
         let fee = match rng.next() % 4 { 0 => Value::Null, 1 => json!((E18 + 1 + rng.below(E18)).to_string()), 2 => json!(E18.to_string()), _ => json!(rng.below(E18).to_string()) };
         let thr = match rng.next() % 3 { 0 => Value::Null, 1 => json!((E18 + rng.below(E18)).to_string()), _ => json!(rng.below(E18 + 1).to_string()) };
         json!({"msg": MSGS[(rng.next() % MSGS.len() as u64) as usize], "sender": SENDERS[(rng.next() % SENDERS.len() as u64) as usize], "paused": rng.next() % 3 == 0,
-               "legacy": rng.next() % 4 == 0, "amount": (1 + rng.amount(100_000)).to_string(), "fee": fee, "thr": thr, "stored_fee": rng.below(E18 + 1).to_string(), "stored_thr": (if rng.next() % 2 == 0 { E18 } else { rng.below(E18 + 1) }).to_string()})
+               "legacy": rng.next() % 4 == 0, "amount": (1 + rng.amount(100_000)).to_string(), "fee": fee, "thr": thr, "stored_fee": rng.below(E18 + 1).to_string(), "airdrop_registered": rng.next() % 3 != 0, "stored_thr": (if rng.next() % 2 == 0 { E18 } else { rng.below(E18 + 1) }).to_string()})
     }
     fn run(&self, input: &Value) -> Outcome {
         let base = json!({"supply_b": "100000", "supply_s": "100000", "req_b": "10", "req_s": "10", "backing_b": "100010", "backing_s": "100010", "delegations": ["100010", "100010"], "balance": "0", "prev_balance": "0",
@@ -31,6 +31,8 @@ impl Driver for HubAuth {
         let paused = input["paused"].as_bool().unwrap_or(false);
         let mut p: Parameters = PARAMETERS.load(&deps.storage).unwrap(); p.paused = Some(paused); PARAMETERS.save(&mut deps.storage, &p).unwrap();
         store_new_owner(&mut deps.storage, &NewOwnerAddr { new_owner_addr: deps.api.addr_canonicalize("nominee").unwrap() }).unwrap();
+        let airdrop_registered = input["airdrop_registered"].as_bool().unwrap_or(true);
+        if !airdrop_registered { let mut cf = basset_sei_hub::state::CONFIG.load(&deps.storage).unwrap(); cf.airdrop_registry_contract = None; basset_sei_hub::state::CONFIG.save(&mut deps.storage, &cf).unwrap(); }
         let legacy = input["legacy"].as_bool().unwrap_or(false);
         if legacy { let mut k = vec![0u8, 4]; k.extend_from_slice(b"wait"); k.extend_from_slice(&[0, 7]); k.extend_from_slice(b"\"alice\""); k.extend_from_slice(b"1"); deps.storage.set(&k, b"\"5\""); }
         let sender = input["sender"].as_str().unwrap();
@@ -76,7 +78,7 @@ impl Driver for HubAuth {
             "bond_rewards" => Some(vec!["dispatcher"]),
             "update_global" => Some(vec!["updater", "registry"]),
             "receive_unbond" | "receive_convert" => Some(vec!["bsei_token", "stsei_token"]),
-            "claim_airdrop" => Some(vec!["airdrop"]),
+            "claim_airdrop" => Some(if airdrop_registered { vec!["airdrop"] } else { vec![] }),
             "swap_hook" => Some(vec!["cosmos2contract"]),
             "redelegate_proxy" => Some(vec!["registry"]),
             _ => None,
